@@ -70,6 +70,97 @@ func c07(r *core.Report) {
 		r.Check(readsLR && readsKA, "C07-EXPIRE-ON-SEND", core.FnName(exp)+" keep-alive clause", p.Pos(exp.Pos()), "a condition in expireSessions compares the time since lastReceived with KeepAliveTimeout", "expireSessions no longer looks at lastReceived / KeepAliveTimeout: a silent peer is noticed only at the hard expiry")
 	}
 
+	// ---- C07-TIMER: retransmission works by the handshake callback re-arming its own timer from
+	// inside the callback (onHandshake -> handshakeTimer.Reset). That only sticks if the timer's fire
+	// routine marks itself not-pending BEFORE it runs the callback and never clears the flag afterwards.
+	r.Rule("C07-TIMER", "the timer's fire routine clears its pending flag before the callback and never after it; Reset sets it", 3)
+	if nt := needFn(r, "p/p2pke", "newTimer"); nt != nil && len(nt.AnonFuncs) >= 1 {
+		pend := needField(r, "p/p2pke", "Timer", "isPending")
+		fire := nt.AnonFuncs[0]
+		r.Analysed(fire)
+		// functions (module) that store the pending flag, with the value stored
+		storesPending := func(fn *ssa.Function, want *bool) bool {
+			seen := map[*ssa.Function]bool{}
+			var walk func(f *ssa.Function, d int) bool
+			walk = func(f *ssa.Function, d int) bool {
+				if f == nil || seen[f] || d > 3 || f.Blocks == nil {
+					return false
+				}
+				seen[f] = true
+				for _, st := range core.StoresToField(f, pend) {
+					if want == nil {
+						return true
+					}
+					if b, isK := core.ConstBool(st.Val); !isK || b == *want {
+						return true
+					}
+				}
+				for _, g := range p.Callees(f, nil) {
+					if walk(g, d+1) {
+						return true
+					}
+				}
+				return false
+			}
+			return walk(fn, 0)
+		}
+		fls := false
+		isClear := func(in ssa.Instruction) bool {
+			if st, ok := in.(*ssa.Store); ok {
+				if f, _ := core.FieldOfAddr(st.Addr); core.SameField(f, pend) {
+					b, isK := core.ConstBool(st.Val)
+					return isK && !b
+				}
+			}
+			return false
+		}
+		var cb ssa.Instruction
+		for _, in := range core.AllInstrs(fire) {
+			if c, ok := in.(*ssa.Call); ok && core.IsParamFuncCall(c.Common()) {
+				cb = in
+			}
+		}
+		if cb == nil || pend == nil {
+			r.Fail("C07-TIMER: callback invocation or Timer.isPending not found in newTimer's fire routine")
+		} else {
+			before := !core.Reach(fire, nil, nil, isClear)[cb]
+			r.Check(before, "C07-TIMER", "timer fire routine clears before the callback", p.Pos(cb.Pos()), "every path to the callback passes isPending = false", "the callback can run while the timer still counts as pending: a Reset made by the callback is indistinguishable from the old arming")
+			after := false
+			for in := range core.Reach(fire, cb, nil, nil) {
+				switch x := in.(type) {
+				case *ssa.Store:
+					if f, _ := core.FieldOfAddr(x.Addr); core.SameField(f, pend) {
+						after = true
+					}
+				case ssa.CallInstruction:
+					if g := core.StaticCallee(x.Common()); g != nil && p.InModule(g) && storesPending(g, nil) {
+						after = true
+					}
+				}
+			}
+			// deferred calls run after the callback too
+			for _, in := range core.AllInstrs(fire) {
+				d, ok := in.(*ssa.Defer)
+				if !ok {
+					continue
+				}
+				g := core.StaticCallee(d.Common())
+				if g == nil {
+					g = core.ClosureFn(d.Call.Value)
+				}
+				if g != nil && p.InModule(g) && storesPending(g, nil) {
+					after = true
+				}
+			}
+			r.Check(!after, "C07-TIMER", "timer fire routine leaves the flag alone after the callback", p.Pos(cb.Pos()), "nothing after the callback (deferred calls included) writes isPending", "the pending flag is written after the callback returned (directly, in a callee or in a deferred call): when the callback re-arms its own timer (handshake retransmission) the re-arming is wiped, the next firing returns early, and a lost handshake message is never sent again")
+		}
+		if rs := needFn(r, "p/p2pke", "Timer.Reset"); rs != nil {
+			tr := true
+			r.Check(storesPending(rs, &tr), "C07-TIMER", "Timer.Reset sets the pending flag", p.Pos(rs.Pos()), "Reset stores isPending = true", "Reset does not mark the timer pending: the fire routine returns early and the callback never runs")
+		}
+		_ = fls
+	}
+
 	// ---- C07-KEEPALIVE
 	r.Rule("C07-KEEPALIVE", "data from the current session refreshes lastReceived before it is handed out", 2)
 	{
